@@ -11,7 +11,7 @@ from vlib import Broken
 
 W = 10
 DRIVER = os.path.join(vlib.VERIF, "harness", "scm", "numdrv.scm")
-JOBS = int(os.environ.get("VERIF_JOBS", "8"))
+JOBS = int(os.environ.get("VERIF_JOBS") or (14 if os.environ.get("VERIF_TIER") == "thorough" else 8))
 
 
 # --------------------------------------------------------------------------- format conversion
